@@ -54,6 +54,7 @@ def cases(tier, rnd):
 # ----------------------------------------------------------------------------- construction histories
 def h_shuffled(ds, forest, outs, rnd):
     t = Tree(ds.real[0].grid_size)
+    outs = rnd.sample(list(outs), len(outs))  # the outlier *set* is what identifies the tree, not the insertion order
     for o in outs[: len(outs) // 2]:
         t.add_data_point_to_outliers(ds.real[o])
 
@@ -95,7 +96,7 @@ def h_smc(ds, forest, outs, rnd):
         go(x)
     pos = sorted(rnd.sample(range(len(order) + len(outs)), len(outs)))
     seq = list(order)
-    for p, o in zip(pos, outs):
+    for p, o in zip(pos, rnd.sample(list(outs), len(outs))):
         seq.insert(p, (o, None))
     t = Tree(ds.real[0].grid_size)
     made = {}
